@@ -27,6 +27,7 @@ CONSTANTS
   Depth = 0
   AttBound = 2
   ViewKeep = {"pub", "done"}
+  GenBFS = FALSE
   AckAll = TRUE
   Weights <- mcWeights
 INVARIANTS InvOK AckedStaysAcked AttemptsBounded OneLivePerName
